@@ -706,6 +706,14 @@ def loadsDoc (doc : PyVal) : Except Err ComposeInfo :=
     | .error e => .error e
     | .ok () => .ok ci
 
+/-- `obj.loads(text)` / `obj.load(f)` on an object that already holds `held` (fresh, filled through the API, or loaded
+before), `doc` = the parsed text.  `ComposeInfo.deserialize` assigns every attribute of the header, compose and release
+sections, drops the base product unless the loaded release is layered (then reads it), and reads the variants into a
+FRESH container (`self.variants = Variants(self)`, the F41 repair): nothing of `held` is consulted, the result is what a
+fresh object would hold.  Only the state after a successful load is modelled (a refused load leaves the sections read so far
+overwritten). -/
+def loadInto (_held : ComposeInfo) (doc : PyVal) : Except Err ComposeInfo := loadsDoc doc
+
 /-- `c = ComposeInfo(); c.loads(text); c.dumps()` with the JSON parser (`json.load`, not modelled) as a parameter -/
 def reloadDump (parse : Str → Except Err PyVal) (text : Str) : Except Err Str :=
   match parse text with
